@@ -27,7 +27,7 @@ def words(prefix, n, start=1):
     return ["%s%03d" % (prefix, i) for i in range(start, start + n)]
 
 
-def scenario(name, family, html, files=None, user_css=None, expect=None, engines=None, main="index.html"):
+def scenario(name, family, html, files=None, user_css=None, expect=None, engines=None, main="index.html", base=None):
     assert name not in SCEN, name
     expect = dict(expect or {})
     nprobes = html.count('class="probe p') if isinstance(html, str) else 0
@@ -36,7 +36,7 @@ def scenario(name, family, html, files=None, user_css=None, expect=None, engines
     if nprobes or "probes" in expect:
         expect["probes"] = nprobes
     SCEN[name] = dict(name=name, family=family, html=html, files=files or {}, user_css=user_css or [],
-                      expect=expect or {}, engines=engines or ["pango"], main=main)
+                      expect=expect or {}, engines=engines or ["pango"], main=main, base=base)
 
 
 def write_all():
@@ -60,6 +60,8 @@ def write_all():
             assert os.path.exists(os.path.join(d, fn)), (name, fn)
         sj = dict(name=name, family=s["family"], main=s["main"], files=files, user_css=s["user_css"],
                   engines=s["engines"], expect=s["expect"])
+        if s.get("base"):
+            sj["base"] = s["base"]
         with open(os.path.join(d, "scenario.json"), "w") as f:
             json.dump(sj, f, indent=1, sort_keys=True)
             f.write("\n")
@@ -967,8 +969,48 @@ def gen_pag4():
                  expect=dict(flows={"main": flow}, margin=True, page_w=220, page_h=H, conserve=True, geometry=True, fits_page=True, line_height=12, paras=paras, orphans=1, widows=1, fill_pages=True))
 
 
+def gen_collide():
+    # pairs of documents that use the SAME NAMES (counter styles, font families, named pages and strings, ids,
+    # and even the same absolute URLs) with DIFFERENT meanings: a process-wide cache keyed by name or URL
+    # makes the second render of a history differ from its solo reference
+    defs = [
+        dict(stars='system: symbolic; symbols: "*"; suffix: " "', abc='system: alphabetic; symbols: a b c; prefix: "("; suffix: ") "', ext='system: extends abc; pad: 3 "0"', roman='system: extends upper-roman; suffix: " - "',
+             font="AHEM____.TTF", img=(200, 0, 0), sheet="p { margin-left: 4px } .k { color: #111 }", wide="260px 120px", fs=10),
+        dict(stars='system: cyclic; symbols: "+" "-"; suffix: ": "', abc='system: numeric; symbols: x y; prefix: "<"; suffix: "> "', ext='system: extends abc; negative: "~"; prefix: "["', roman='system: extends decimal; prefix: "("; suffix: ") "',
+             font="weasyprint.otf", img=(0, 0, 200), sheet="p { margin-left: 14px } .k { color: #999; font-size: 12px }", wide="180px 160px", fs=12),
+    ]
+    for i, d in enumerate(defs, start=1):
+        css = ("@page { size: 240px 150px; margin: 10px; @top-left { content: string(t); font-family: ahem; font-size: 8px } @bottom-center { content: \"pg\" counter(page) \"of\" counter(pages); font-family: ahem; font-size: 8px; line-height: 8px } }\n"
+               "@page wide { size: %s }\n" % d["wide"] +
+               "html, body { margin: 0; font-family: ahem; font-size: %dpx; line-height: 1.2 }\np { margin: 0 0 1em 0 }\nh2 { margin: 0; font-size: 1em; font-weight: normal; string-set: t content() }\n" % d["fs"] +
+               "@counter-style stars { %s }\n@counter-style abc { %s }\n@counter-style ext { %s }\n@counter-style roman { %s }\n" % (d["stars"], d["abc"], d["ext"], d["roman"]) +
+               "@font-face { font-family: shared; src: url(font.bin) }\n.sf { font-family: shared, ahem }\n"
+               "ol { margin: 0; padding-left: 60px } ol.s { list-style: stars } ol.a { list-style: abc } ol.e { list-style: ext } ol.r { list-style: roman }\n.w { page: wide }\nimg { width: 20px; height: 20px }\n")
+        W = words("w", 24)
+        body = ('<h2 id=x>t%03d</h2>' % i + "".join('<ol class=%s>%s</ol>' % (c, "".join("<li>%s</li>" % w for w in W[j * 3:j * 3 + 3])) for j, c in enumerate("saer")) +
+                '<p class="sf k">%s <img src="img.png" alt=a1> <a href="#x">%s</a></p><div class=w>%s</div>' % (" ".join(W[12:16]), W[16], para(W[17:])))
+        scenario("collide-%02d" % i, "collide", doc(css, body, '<link rel=stylesheet href="sheet.css">'),
+                 files={"sheet.css": (d["sheet"], dict(mime="text/css", kind="css")), "font.bin": (resfile(d["font"]), dict(mime="font/ttf", kind="font")), "img.png": (png(4, 4, d["img"]), dict(mime="image/png", kind="image"))},
+                 expect=dict(group="collide", sentinels=W[:12] + W[17:], line_height=12), base="http://sim.test/collide/")
+
+    # forward target-text / target-counter references wrapped in quotes opened in ::before and closed in ::after
+    css = page_css(240, 150, 10) + BASE + ('q { quotes: "<" ">" "[" "]" }\na::before { content: open-quote target-text(attr(href), content()) " " }\na::after { content: " " target-counter(attr(href), page) close-quote }\n'
+                                            'span.o::before { content: open-quote } span.o::after { content: close-quote }\nbody { quotes: "<" ">" "[" "]" }\n')
+    body, flow = [], []
+    wi = 1
+    for i in range(6):
+        ws = words("w", 14, wi); wi += 14; flow += ws
+        inner = list(ws)
+        inner[2] = '<a href="#t%d">%s</a>' % ((i + 2) % 6, ws[2])
+        inner[6] = '<span class=o>%s <a href="#t%d">%s</a></span>' % (ws[6], (i + 3) % 6, ws[7]); inner[7] = ""
+        inner[10] = '<a href="#t%d">%s</a>' % ((i + 4) % 6, ws[10])
+        body.append('<p id="t%d">%s</p>' % (i, " ".join(x for x in inner if x)))
+    scenario("feat-09", "feat", doc(css, "\n".join(body)), expect=dict(margin=True, page_w=240, page_h=150, line_height=12))
+
+
 def main():
     gen_pag()
+    gen_collide()
     gen_pag4()
     gen_geo()
     gen_pag2()
